@@ -170,6 +170,31 @@ def ops_table(ws):
                                                                           "dir": np.array([0.0, 90.0, 180.0, 270.0])}, name="efth")
         return (lambda: ds.spec.interp_like(other)), [other]
 
+    def ncswan_already_named(ds, rng):
+        # a SWAN-netCDF dataset whose variables and dimensions already carry the wavespectra names (nothing to rename)
+        import random as _r
+
+        from . import c12
+        from wavespectra.input import ncswan as m_ncswan
+
+        nat, _ = c12.build_ncswan(_r.Random(rng.getrandbits(32)), False)
+        ren = {k: v for k, v in m_ncswan.MAPPING.items() if k != v and (k in nat.variables or k in nat.dims)}
+        d2 = nat.rename(ren).copy(deep=True)
+        return (lambda: m_ncswan.from_ncswan(d2)), [d2]
+
+    T["from_ncswan(already wavespectra names)"] = ncswan_already_named
+
+    def stat_bare_coords(ds, rng):
+        # station spectra built by hand: lon/lat as coordinates along site WITHOUT attributes, a scalar time left by isel
+        da = ds.efth.isel(time=0).copy(deep=True)
+        da = da.assign_coords(lon=("site", np.asarray(ds.lon.values, dtype=float).copy()), lat=("site", np.asarray(ds.lat.values, dtype=float).copy()))
+        for c in ("lon", "lat", "time", "site"):
+            da[c].attrs = {}
+        name = rng.choice(["hs", "tp", "tm01", "oned", "stats"])
+        f = (lambda: da.spec.stats(["hs", "tp"])) if name == "stats" else (lambda: getattr(da.spec, name)())
+        return f, [da]
+
+    T["da.stat(coordinates without attrs)"] = stat_bare_coords
     T["da.interp(coordinate arrays)"] = interp_coord_arrays
     T["ds.interp_like(bare)"] = interp_like_bare
     T["da.interp"] = interp
